@@ -6,7 +6,7 @@ Driver handler for the `err` model (C07).
 `scen <cause> <pos> <refKind> <qual> <dbSet> <schemaSet>` → impl=<outcome>|<changed>	spec=<outcome>|<changed>	finding=<key|->
 `ops <dbSet> <schemaSet> <vars ,-sep> <op ;-sep>` with
    op := o | c | d:<call> (checked description) | x:<undefinedVar>:<parseError>:<var>:<call ,-sep>      var := - | s.NAME | u.NAME
-   call := <noDb><noSchema>.<sqlcode>.<ctx>.<followup codes +-sep or ->   ctx := - | d (USE DATABASE X) | s (USE SCHEMA Y) | q (USE SCHEMA X.Y)
+   call := <noDb><noSchema>.<sqlcode>.<ctx>.<followup codes +-sep or ->   ctx := - | d (USE DATABASE X) | s (USE SCHEMA Y) | q (USE SCHEMA X.Y) | k (DROP SCHEMA <current>)
    sqlcode := 0 accept | 1 binder | 2 catalog | 3 txNoActive | 4 txOther | 5 parser | 6 conversion | 7 constraint | 8 connection
  → impl=<per op: outcome|sqlstate|changed|finding ;-sep>
 outcome := ok | P:<errno>:<sqlstate> | D:<errno>:<sqlstate> | R:<duck class> | Y:<python class>
@@ -70,6 +70,7 @@ def parseCall (s : String) : Option (Call Nat) :=
       | "d" => some (.setDatabase "X")
       | "s" => some (.setSchema "Y")
       | "q" => some (.setSchema "Y" (some "X"))
+      | "k" => some (.dropped false "S1")          -- DROP SCHEMA of the session's current schema
       | _ => none
     let fs := if fol == "-" then [] else (fol.splitOn "+").filterMap (·.toNat?)
     pure { noDatabase := fl.getD 0 '0' == '1', noSchema := fl.getD 1 '0' == '1', sql := q, ctx := cx, followups := fs }
